@@ -29,7 +29,7 @@ def _nonneg_guard(test, pname, truth=True):
     # reductions
     if isinstance(test, ast.Call):
         d = dotted(test.func) or ''
-        red = d.split('.')[-1]
+        red = d.split('.')[-1] if d else (test.func.attr if isinstance(test.func, ast.Attribute) else '')
         inner = None
         if d in ('torch.all', 'torch.any', 'all', 'any') and test.args:
             inner = test.args[0]
@@ -335,7 +335,7 @@ def rule_unit(repo, tier):
 
 def _sq_axis(e):
     """axis over which a squared norm  X.square().sum(axis)  /  (X*X).sum(axis) / X.pow(2).sum(axis)  is taken, with X name"""
-    for n in ast.walk(e):
+    for n in [e]:
         if isinstance(n, ast.Call) and isinstance(n.func, ast.Attribute) and n.func.attr == 'sum' and n.args:
             inner = n.func.value
             base = None
@@ -360,20 +360,20 @@ def rule_sel_axis(repo, tier):
     axes = {}
     for mod, q in sites:
         f = repo.func(mod, q)
-        found = None
+        founds = []
         for n in ast.walk(f.node):
-            if isinstance(n, ast.expr):
+            if isinstance(n, ast.Call) and isinstance(n.func, ast.Attribute) and n.func.attr == 'sum':
                 a = _sq_axis(n)
-                if a:
-                    found = a
-                    break
-        axes[q] = found
-        res.inst({'function': f.fq, 'squared_norm': found}, f.fq)
-        if found is None:
+                if a and a not in founds:
+                    founds.append(a)
+        axes[q] = founds
+        res.inst({'function': f.fq, 'squared_norms': founds}, f.fq)
+        if not founds:
             res.add(Finding('C09.AXIS', f, '%s no longer forms the squared norm X.square().sum(axis) of the residual' % q, construct='no sqnorm'))
-        elif found[0] != '-1':
-            res.add(Finding('C09.AXIS', f, '%s reduces the squared residual over axis %s; the loss and both correctors must agree on the last axis' % (q, found[0]),
-                            construct='axis ' + found[0]))
+        for found in founds:
+            if found[0] != '-1':
+                res.add(Finding('C09.AXIS', f, '%s reduces the squared residual over axis %s; the loss and both correctors must agree on the last axis' % (q, found[0]),
+                                construct='axis ' + found[0]))
     # selection in RobustModel.loss
     f = repo.func(OPT, 'RobustModel.loss')
     pths, _ = paths.function_paths(f.node, limit=256)
